@@ -15,24 +15,24 @@ var (
 // every oracle; kinds outside the property under check are counted as
 // out_of_scope in the evidence and not reported by this check.
 var claims = map[string][]string{
-	"C01":      {"lost-event", "overflow-not-reported", "reader-stuck"},
-	"C02":      {"phantom-event", "housekeeping-event"},
-	"C03":      {"order"},
-	"C04":      {"watchlist-mismatch", "wrong-error", "panic", "history-not-explainable"},
-	"C05":      {"blocked-control-op", "close-not-returning"},
-	"C06":      {"channel-not-closed", "post-close-result", "panic", "close-not-returning", "event-after-close"},
-	"C07":      {"data-race", "panic", "deadlock", "blocked-control-op", "close-not-returning", "history-not-explainable", "watchlist-mismatch", "wrong-error", "not-linearizable"},
-	"C08":      {"name-mismatch"},
-	"C09":      {"watchlist-mismatch", "wrong-error", "lost-event", "phantom-event"},
-	"C10":      {"spurious-error", "overflow-not-reported", "dead-after-overflow", "reader-stuck"},
-	"C11":      {"renamed-from-mismatch"},
-	"C12":      {"kernel-mark-orphan", "kernel-mark-missing", "table-size", "foreign-watch"},
-	"C13":      {"fd-leak", "task-leak", "foreign-watch"},
-	"C14":      {"cap-mismatch", "stream-divergence", "lost-event", "phantom-event", "order", "foreign-watch", "absorb-failed", "reader-stuck"},
+	"C01":      {"lost-event", "overflow-not-reported", "reader-stuck", "panic"},
+	"C02":      {"phantom-event", "housekeeping-event", "panic"},
+	"C03":      {"order", "panic"},
+	"C04":      {"watchlist-mismatch", "wrong-error", "panic", "history-not-explainable", "wrong-result"},
+	"C05":      {"blocked-control-op", "close-not-returning", "panic"},
+	"C06":      {"channel-not-closed", "post-close-result", "panic", "close-not-returning", "event-after-close", "wrong-result"},
+	"C07":      {"data-race", "panic", "deadlock", "blocked-control-op", "close-not-returning", "history-not-explainable", "watchlist-mismatch", "wrong-error", "not-linearizable", "wrong-result"},
+	"C08":      {"name-mismatch", "panic"},
+	"C09":      {"watchlist-mismatch", "wrong-error", "lost-event", "phantom-event", "panic", "wrong-result"},
+	"C10":      {"spurious-error", "overflow-not-reported", "dead-after-overflow", "reader-stuck", "panic"},
+	"C11":      {"renamed-from-mismatch", "panic"},
+	"C12":      {"kernel-mark-orphan", "kernel-mark-missing", "table-size", "foreign-watch", "panic"},
+	"C13":      {"fd-leak", "task-leak", "foreign-watch", "panic"},
+	"C14":      {"cap-mismatch", "stream-divergence", "lost-event", "phantom-event", "order", "foreign-watch", "absorb-failed", "reader-stuck", "panic"},
 	"C17":      {"kq-fd-leak", "kq-table-leak", "kq-internal-path-listed", "task-leak", "panic", "deadlock"},
 	"C18":      {"kq-event-mismatch", "kq-duplicate-create", "kq-missing-create", "kq-event-order", "panic", "script-mismatch"},
 	"KQSCRIPT": {"script-mismatch", "panic", "deadlock"},
-	"C19":      {"lost-event", "phantom-event", "name-mismatch", "order", "watchlist-mismatch", "renamed-from-mismatch"},
+	"C19":      {"lost-event", "phantom-event", "name-mismatch", "order", "watchlist-mismatch", "renamed-from-mismatch", "panic"},
 }
 
 func claimsOf(p string) map[string]bool {
